@@ -126,6 +126,7 @@ func C03(r *core.Run) {
 	enumUnknownName(r)
 	acceptanceMatrix(r)
 	bitSizes(r, "lib/j5reflect", "scalarReflectFromGo")
+	numberPreconversion(r)
 	leniency(r)
 	queryReuse(r)
 	r.Tick("rest")
@@ -541,5 +542,57 @@ func queryReuse(r *core.Run) {
 		} else {
 			o.Fail("decodeQuery no longer routes through %s", strings.ReplaceAll(want, core.Module+"/", ""))
 		}
+	}
+}
+
+// numberPreconversion (R-FLOW/F2c): a bare JSON number reaches the integer
+// format switch of scalarReflectFromGo as exactly one Go type, int64 — the
+// only integer type whose narrowing arms carry range tests against every
+// format (R-FLOW/F2 "int64 range"). The arms for the other Go integer types
+// serve callers of the Go API and convert without tests (uint64 → int64 wraps),
+// so handing any other type to the switch from the decoder would turn an
+// out-of-range document into a silently different value.
+func numberPreconversion(r *core.Run) {
+	r.Rule("R-FLOW/F2c", "inside the json.Number pre-conversion of scalarReflectFromGo every assignment to the value under conversion has static type int64 (the result of json.Number.Int64 after its error check); another type would enter format arms that have no range tests for it")
+	fd, pk := r.P.FuncDecl("lib/j5reflect", "scalarReflectFromGo")
+	if fd == nil {
+		r.Fatal("anchor: j5reflect.scalarReflectFromGo not found")
+		return
+	}
+	info := pk.TypesInfo
+	n := 0
+	ast.Inspect(fd.Body, func(nd ast.Node) bool {
+		ifs, ok := nd.(*ast.IfStmt)
+		if !ok || ifs.Init == nil {
+			return true
+		}
+		as, ok := ifs.Init.(*ast.AssignStmt)
+		if !ok || len(as.Rhs) != 1 {
+			return true
+		}
+		ta, ok := core.Unparen(as.Rhs[0]).(*ast.TypeAssertExpr)
+		if !ok || ta.Type == nil || core.TypeStr(info.TypeOf(ta.Type)) != "encoding/json.Number" {
+			return true
+		}
+		target := core.ExprStr(ta.X)
+		ast.Inspect(ifs.Body, func(x ast.Node) bool {
+			a2, ok := x.(*ast.AssignStmt)
+			if !ok || len(a2.Lhs) != 1 || len(a2.Rhs) != 1 || core.ExprStr(a2.Lhs[0]) != target {
+				return true
+			}
+			n++
+			o := r.Add("R-FLOW/F2c", fmt.Sprintf("lib/j5reflect.scalarReflectFromGo | %s = %s (json.Number)", target, core.ExprStr(a2.Rhs[0])), a2.Pos(), "Go type a bare JSON number is converted to")
+			t := core.TypeStr(info.TypeOf(a2.Rhs[0]))
+			if t == "int64" {
+				o.Auto("int64")
+			} else {
+				o.Fail("a bare number is handed on as %s: the format switch converts that type without the range tests the int64 arms have (e.g. uint64 → int64 wraps), so an out-of-range document is accepted with a different value", t)
+			}
+			return true
+		})
+		return true
+	})
+	if n == 0 {
+		r.Fatal("R-FLOW/F2c: no json.Number pre-conversion found in scalarReflectFromGo (anchor moved?)")
 	}
 }
